@@ -32,8 +32,8 @@ CLAIMED = {
          "DESIGN.md section 4 (C13)"),
  "C01": ("exploration",
          "deterministic simulation: sender, faulty channel (corrupt, truncate, extend, re-frame, splice, reorder, replay) and receiver; accept iff re-encryption reproduces the received tag, plus a sent-history rule",
-         "Seeded search over channel histories for GCM, CCM, EAX, SIV, OCB, ChaCha20-/XChaCha20-Poly1305 (all legal key sizes, nonce lengths and mac_len values) and KW/KWP: 1-6 sealed records, 2-18 deliveries each damaged by one fault (bit flip in nonce/AAD/ciphertext/tag, tag truncated to any length incl. empty, extended or zeroed, ciphertext truncated/extended/rotated, ciphertext-tag boundary moved, fields of two records exchanged, 16-byte blocks swapped incl. neighbours around every power of two in records up to 70 KB; for KW/KWP also structures crafted with the KEK: wrong ICV constant, wrong length field, non-zero padding) and opened through decrypt_and_verify, segmented decrypt+verify, hexverify, output= and repeated verify. The receiver's verdict must equal the reference decision (decrypt, re-encrypt, compare tags byte for byte; independent RFC 3394/5649 unwrap for KW/KWP) and the sent-history rule. Sampling, not proof.",
-         "Restricted claim: 'the tag the specification defines' is replaced by 'the tag the library's own encrypt direction produces' (spec conformance is C02). History-rule rejections are asserted only for tags/ICVs >= 64 bits.",
+         "Seeded search over channel histories for GCM, CCM, EAX, SIV, OCB, ChaCha20-/XChaCha20-Poly1305 (all legal key sizes, nonce lengths and mac_len values) and KW/KWP: 1-6 sealed records, 2-18 deliveries each damaged by one fault (bit flip in nonce/AAD/ciphertext/tag, tag truncated to any length incl. empty, extended or zeroed, ciphertext truncated/extended/rotated, ciphertext-tag boundary moved, fields of two records exchanged, 16-byte blocks swapped incl. neighbours around every power of two in records up to 70 KB; for KW/KWP also structures crafted with the KEK: wrong ICV constant, wrong length field, non-zero padding) and opened through decrypt_and_verify, segmented decrypt+verify, hexverify, output= and repeated verify. The receiver's verdict must equal the reference decision (decrypt, re-encrypt, compare tags byte for byte; independent RFC 3394/5649 unwrap for KW/KWP) and the sent-history rule; in addition every record the sender produces is compared with an independent construction of the mode (CCM, EAX, GCM, SIV, OCB, ChaCha20-/XChaCha20-Poly1305 formatting, padding, length encoding, sub-keys, offsets and MACs re-implemented over the library's ECB/CBC/CTR and raw ChaCha20 key stream), so the accepted tag is the one the specification defines and not merely the one the library's encrypt direction produces. Sampling, not proof.",
+         "Trusted: the block ciphers and the classic modes ECB/CBC/CTR and the raw ChaCha20 key stream (their conformance is C02); GCM and OCB records above 20 KB are judged by the re-encryption oracle only. History-rule rejections are asserted only for tags/ICVs >= 64 bits.",
          "DESIGN.md section 4 (C01)"),
  "C18": ("fault_enumeration",
          "deterministic simulation with the entropy source as the schedule: exhaustive breadth-first enumeration of entropy tapes for small ranges with exact pre-image counting; boundary, stuck and periodic tapes plus a pigeonhole collision probe at cryptographic sizes",
